@@ -16,16 +16,33 @@ fn obs_name(r: &CoapRequest<Ep>) -> &'static str {
     }
 }
 
+/// The stored code is an enum value, not a byte: besides the 256 values a byte decodes to ("canon") the
+/// public API can store `Request(UnKnown)`, `Response(UnKnown)` and `Reserved(n)` with the byte of a named
+/// code.  The projection of a code is its byte plus this form (Views.tla, CodeForms).
+pub fn code_form(c: MessageClass) -> &'static str {
+    if MessageClass::from(u8::from(c)) == c {
+        return "canon";
+    }
+    match c {
+        MessageClass::Request(_) => "Request(UnKnown)",
+        MessageClass::Response(_) => "Response(UnKnown)",
+        MessageClass::Reserved(_) => "Reserved",
+        MessageClass::Empty => "Empty?",
+    }
+}
+
 fn flat02(p: &Packet) -> Value {
     use coap_message::{MessageOption, ReadableMessage};
     let opts: Vec<Value> = ReadableMessage::options(p).map(|o| json!([o.number(), jbytes(o.value())])).collect();
-    json!({"code": u8::from(ReadableMessage::code(p)), "pay": jbytes(ReadableMessage::payload(p)), "opts": opts})
+    let c = ReadableMessage::code(p);
+    json!({"code": u8::from(c), "cform": code_form(c), "pay": jbytes(ReadableMessage::payload(p)), "opts": opts})
 }
 
 fn flat03(p: &Packet) -> Value {
     use coap_message_0_3::{MessageOption, ReadableMessage};
     let opts: Vec<Value> = ReadableMessage::options(p).map(|o| json!([o.number(), jbytes(o.value())])).collect();
-    json!({"code": u8::from(ReadableMessage::code(p)), "pay": jbytes(ReadableMessage::payload(p)), "opts": opts})
+    let c = ReadableMessage::code(p);
+    json!({"code": u8::from(c), "cform": code_form(c), "pay": jbytes(ReadableMessage::payload(p)), "opts": opts})
 }
 
 /// every convenience getter of the message, by registry names
@@ -55,12 +72,12 @@ fn apply_conv(p: &mut Packet, c: &Value) {
     match c["f"].as_str().unwrap() {
         "set_method" => {
             let mut r: CoapRequest<Ep> = CoapRequest { message: std::mem::take(p), response: None, source: None };
-            r.set_method(*ALL_METHODS.iter().find(|m| method_name(**m) == name).unwrap_or_else(|| tool_error("method name")));
+            r.set_method(if name == "UnKnown" { RequestType::UnKnown } else { *ALL_METHODS.iter().find(|m| method_name(**m) == name).unwrap_or_else(|| tool_error("method name")) });
             *p = r.message;
         }
         "set_status" => {
             let mut r = CoapResponse { message: std::mem::take(p) };
-            r.set_status(*ALL_RESPONSES.iter().find(|m| response_name(**m) == name).unwrap_or_else(|| tool_error("status name")));
+            r.set_status(if name == "UnKnown" { ResponseType::UnKnown } else { *ALL_RESPONSES.iter().find(|m| response_name(**m) == name).unwrap_or_else(|| tool_error("status name")) });
             *p = r.message;
         }
         "set_path" => {
@@ -143,7 +160,7 @@ pub fn replay_views(args: &Args) {
         let same_raw = ["ver", "typ", "code", "mid", "tok", "opts", "pay"].iter().all(|k| got[*k] == st[*k]);
         let t02 = flat02(&p);
         let t03 = flat03(&p);
-        let trait_ok = t02 == t03 && t02["opts"] == views["flat"] && t02["code"] == st["code"] && t02["pay"] == st["pay"];
+        let trait_ok = t02 == t03 && t02["opts"] == views["flat"] && t02["code"] == st["code"] && t02["pay"] == st["pay"] && t02["cform"] == code_form(p.header.code);
         if !same_raw || views != v["views"] || enc["bytes"] != v["bytes"] || !trait_ok {
             rep.bad("C19", "accessor / raw state / encoded bytes / trait view disagree with Views.tla", json!({"h": v["h"], "expected_state": st, "got_state": got, "expected_views": v["views"], "got_views": views, "t02": t02, "t03": t03}));
         }
@@ -215,7 +232,7 @@ pub fn replay_exchange(args: &Args) {
 
 fn ev_views(out: &mut Out, p: &Packet) {
     let views = guarded(|| all_views(p));
-    out.ev(json!({"op": "views", "st": jpkt(p), "panicked": views.is_none(), "views": views.unwrap_or(json!({})), "t02": flat02(p), "t03": flat03(p)}));
+    out.ev(json!({"op": "views", "st": jpkt(p), "cform": code_form(p.header.code), "panicked": views.is_none(), "views": views.unwrap_or(json!({})), "t02": flat02(p), "t03": flat03(p)}));
 }
 
 fn copy02<S: coap_message::ReadableMessage, D: coap_message::MinimalWritableMessage>(src: &S, dst: &mut D) {
@@ -237,6 +254,25 @@ fn copy03<S: coap_message_0_3::ReadableMessage, D: coap_message_0_3::MinimalWrit
     dst.set_payload(src.payload()).ok().unwrap();
 }
 
+/// a copy between two messages of the same type: code and option numbers handed over as they are read
+fn direct02(src: &Packet, dst: &mut Packet) {
+    use coap_message::{MessageOption, MinimalWritableMessage, ReadableMessage};
+    MinimalWritableMessage::set_code(dst, ReadableMessage::code(src));
+    for o in ReadableMessage::options(src) {
+        MinimalWritableMessage::add_option(dst, o.number().into(), o.value());
+    }
+    MinimalWritableMessage::set_payload(dst, ReadableMessage::payload(src));
+}
+
+fn direct03(src: &Packet, dst: &mut Packet) {
+    use coap_message_0_3::{MessageOption, MinimalWritableMessage, ReadableMessage};
+    MinimalWritableMessage::set_code(dst, ReadableMessage::code(src));
+    for o in ReadableMessage::options(src) {
+        MinimalWritableMessage::add_option(dst, o.number().into(), o.value()).unwrap();
+    }
+    MinimalWritableMessage::set_payload(dst, ReadableMessage::payload(src)).unwrap();
+}
+
 pub fn rec_views(args: &Args) {
     let seed = args.u("seed", 1);
     let thorough = args.thorough();
@@ -246,6 +282,15 @@ pub fn rec_views(args: &Args) {
     for b in 0..=255u8 {
         let mut p = Packet::new();
         p.header.code = b.into();
+        ev_views(&mut out, &p);
+        // the same byte held as a hand-built Reserved value (a different stored value when the byte is named)
+        p.header.code = MessageClass::Reserved(b);
+        ev_views(&mut out, &p);
+    }
+    // the catch-all method / status as stored values
+    for code in [MessageClass::Request(RequestType::UnKnown), MessageClass::Response(ResponseType::UnKnown)] {
+        let mut p = crate::wire::random_message(&mut r, 3, 4, 4);
+        p.header.code = code;
         ev_views(&mut out, &p);
     }
     // raw Observe option bytes of length 0..6, raw Content-Format bytes, raw Uri-Path segments
@@ -305,8 +350,8 @@ pub fn rec_views(args: &Args) {
         }
         for _ in 0..r.range(1, 3) {
             let call = match (i + r.below(5) as usize) % 5 {
-                0 => json!({"f": "set_method", "a": {"name": method_name(*r.pick(ALL_METHODS))}}),
-                1 => json!({"f": "set_status", "a": {"name": response_name(*r.pick(ALL_RESPONSES))}}),
+                0 => json!({"f": "set_method", "a": {"name": if r.chance(1, 6) { "UnKnown" } else { method_name(*r.pick(ALL_METHODS)) }}}),
+                1 => json!({"f": "set_status", "a": {"name": if r.chance(1, 6) { "UnKnown" } else { response_name(*r.pick(ALL_RESPONSES)) }}}),
                 2 => {
                     let mut path: String = (0..r.below(9)).map(|_| *r.pick(&path_alpha)).collect();
                     if r.chance(1, 10) {
@@ -319,8 +364,9 @@ pub fn rec_views(args: &Args) {
                 _ => json!({"f": "set_content_format", "a": {"name": cf_name(*r.pick(ALL_CFS))}}),
             };
             let pre = jpkt(&p);
+            let preform = code_form(p.header.code);
             let ok = guarded(|| apply_conv(&mut p, &call)).is_some();
-            out.ev(json!({"op": "set", "f": call["f"], "a": call["a"], "pre": pre, "post": jpkt(&p), "panicked": !ok}));
+            out.ev(json!({"op": "set", "f": call["f"], "a": call["a"], "pre": pre, "preform": preform, "post": jpkt(&p), "postform": code_form(p.header.code), "panicked": !ok}));
             ev_views(&mut out, &p);
         }
     }
@@ -332,16 +378,24 @@ pub fn rec_views(args: &Args) {
             src.add_option(CoapOption::ETag, vec![1]);
             src.clear_option(CoapOption::ETag);
         }
-        for api in ["copy02", "copy03", "set_from_message02", "set_from_message03"] {
+        match r.below(6) {
+            0 => src.header.code = MessageClass::Request(RequestType::UnKnown),
+            1 => src.header.code = MessageClass::Response(ResponseType::UnKnown),
+            2 => src.header.code = MessageClass::Reserved(u8::from(src.header.code)),
+            _ => {}
+        }
+        for api in ["copy02", "copy03", "direct02", "direct03", "set_from_message02", "set_from_message03"] {
             let mut dst = Packet::new();
             let ok = guarded(|| match api {
                 "copy02" => copy02(&src, &mut dst),
                 "copy03" => copy03(&src, &mut dst),
+                "direct02" => direct02(&src, &mut dst),
+                "direct03" => direct03(&src, &mut dst),
                 "set_from_message02" => coap_message::MinimalWritableMessage::set_from_message(&mut dst, &src),
                 _ => coap_message_0_3::MinimalWritableMessage::set_from_message(&mut dst, &src).unwrap(),
             })
             .is_some();
-            out.ev(json!({"op": "copy", "api": api, "src": jpkt(&src), "dst": jpkt(&dst), "panicked": !ok}));
+            out.ev(json!({"op": "copy", "api": api, "src": jpkt(&src), "srcform": code_form(src.header.code), "dst": jpkt(&dst), "dstform": code_form(dst.header.code), "panicked": !ok}));
         }
     }
     let n = out.finish();
